@@ -250,7 +250,7 @@ func (e *Env) eval(x Expr) (cval, error) {
 		case *types.Map:
 			return cval{t: c.mapGet(e.st, b.t, u, i.t), typ: u.Elem()}, nil
 		case *types.Slice:
-			return cval{t: c.load(e.st, Idx(SArr(b.t), add(SOff(b.t), i.t)), u.Elem()), typ: u.Elem()}, nil
+			return cval{t: c.load(e.st, Elem(b.t, i.t), u.Elem()), typ: u.Elem()}, nil
 		case *types.Array:
 			return cval{t: Select(b.t, i.t), typ: u.Elem()}, nil
 		case *types.Pointer:
@@ -358,7 +358,7 @@ func (e *Env) evalAddr(x Expr) (T, types.Type, bool, error) {
 			return T{}, nil, false, err
 		}
 		if sl, ok := under(b.typ).(*types.Slice); ok {
-			return Idx(SArr(b.t), add(SOff(b.t), i.t)), sl.Elem(), true, nil
+			return Elem(b.t, i.t), sl.Elem(), true, nil
 		}
 		return T{}, nil, false, nil
 	}
